@@ -183,6 +183,20 @@ fn main() {
                 let buf: &'static [u8] = Box::leak(vec![i as u8; *l].into_boxed_slice());
                 iov.push_borrowed(buf);
             }
+            // optionally: `begin` final bytes, a pending placeholder of `plen` bytes and a tail, all in the iovec's own arena
+            if args.len() > 7 {
+                let begin: usize = args[5].parse().unwrap();
+                let plen: usize = args[6].parse().unwrap();
+                let tail: usize = args[7].parse().unwrap();
+                if begin > 0 {
+                    iov.push_copy(&vec![9u8; begin]);
+                }
+                let token = iov.register_patch(&vec![0u8; plen]);
+                std::mem::forget(token);
+                if tail > 0 {
+                    iov.push_copy(&vec![7u8; tail]);
+                }
+            }
             let before = iov.total_size();
             let n = iov.consumer().advance_slices(count);
             (n, before - iov.total_size())
